@@ -438,7 +438,17 @@ fn metric_record(e: &Emb, a: u64, b: u64, c: u64, contiguous: bool) -> Value {
                 bidx = e.abs_idx(i);
             }
         }
-        json!({"a": a, "b": b, "c": c, "dab": e.abs_dist(dab.0), "dba": e.abs_dist(dba.0), "dac": e.abs_dist(dac.0),
+        // KBucketsTable::bucket(b): None for the local key, else the bucket whose range holds the distance; reported
+        // as the abstract index of the range's lower bound (-2 = None, -3 = a range that is not [2^i, 2^(i+1) - 1] or
+        // does not hold the distance)
+        let brange = match t.bucket_range(&kb) {
+            None => -2i64,
+            Some((lo, hi)) => match lo.ilog2() {
+                Some(i) if lo.0 == (U256::one() << (i as usize)) && hi.0 == (lo.0 - U256::one()) + lo.0 && lo.0 <= dab.0 && dab.0 <= hi.0 => e.abs_idx(i as usize),
+                _ => -3,
+            },
+        };
+        json!({"a": a, "b": b, "c": c, "brange": brange, "dab": e.abs_dist(dab.0), "dba": e.abs_dist(dba.0), "dac": e.abs_dist(dac.0),
                "dbc": e.abs_dist(dbc.0), "tri": tri, "fd": e.abs(&fd), "il": il, "bidx": bidx,
                "insok": matches!(ins, Ok(Inserted::Inserted)), "self": matches!(ins, Err(EntryState::SelfEntry)),
                "B": e.bits(), "contig": contiguous, "pos": e.pos, "mseed": e.mseed})
@@ -518,7 +528,14 @@ fn wide_record(xa: U256, xb: U256, xc: U256) -> Value {
                 bidx = j as i64;
             }
         }
-        json!({"wide": true, "eq": xa == xb, "zero": dab.0.is_zero(), "sym": dab == dba, "tri": ovf || dac.0 <= sum,
+        let brange = match t.bucket_range(&kb) {
+            None => -1i64,
+            Some((lo, hi)) => match lo.ilog2() {
+                Some(i) if lo.0 == (U256::one() << (i as usize)) && hi.0 == (lo.0 - U256::one()) + lo.0 && lo.0 <= dab.0 && dab.0 <= hi.0 => i as i64,
+                _ => -3,
+            },
+        };
+        json!({"wide": true, "brange": brange, "eq": xa == xb, "zero": dab.0.is_zero(), "sym": dab == dba, "tri": ovf || dac.0 <= sum,
                "uni": (ka.for_distance(dab) == kb), "fdinv": fd == kb && ka.distance(&fd) == dab,
                "xor": dab.0 == (xa ^ xb), "ilok": ilok, "il": il.map(|x| x as i64).unwrap_or(-1), "bidx": bidx,
                "self": matches!(ins, Err(EntryState::SelfEntry)),
